@@ -37,6 +37,15 @@ def collision_programs(tier):
                         c = Contract(methods=(Method("instantiate", "inst", ()), Method(kind, "own_only", ())), interfaces=(i0, i1))
                     out.append(("pc%03d" % n, c, collide, {"kind": kind, "pos": pos, "pair": pair, "shared": shared}))
                     n += 1
+    # a generic contract that nothing in its crate instantiates (a library contract): the check must not wait for an instantiation
+    B = "sylvia::serde::Serialize + sylvia::serde::de::DeserializeOwned + std::fmt::Debug + Clone + PartialEq + sylvia::schemars::JsonSchema + 'static"
+    for kind in (ENUMK if tier == "thorough" else ["exec", "sudo"]):
+        for collide in (True, False):
+            i0 = Interface(name="If0", module="if0", methods=(Method(kind, "mmm", (Arg("a", "u32"),)), Method(kind, "other", ())), custom="msg=Empty, query=Empty")
+            c = Contract(methods=(Method("instantiate", "inst", ()), Method(kind, "mmm" if collide else "mmx", (Arg("a", "TA"),)), Method(kind, "zzz", ())), interfaces=(i0,),
+                         generics=(("TA", ""),), where=("TA: " + B,), new="pub const fn new() -> Self { Self { _p: std::marker::PhantomData } }")
+            out.append(("pc%03d" % n, c, collide, {"kind": kind, "pair": "ci", "shared": "mmm", "generic_uninstantiated": True}))
+            n += 1
     # same name in *different* kinds never collides (control)
     i0 = Interface(name="If0", module="if0", methods=(Method("query", "foo", ()), Method("sudo", "bar", ())), custom="msg=Empty, query=Empty")
     c = Contract(methods=(Method("instantiate", "inst", ()), Method("exec", "foo", ()), Method("query", "bar", ())), interfaces=(i0,))
